@@ -1,8 +1,9 @@
 (* C11 - a failing task stores nothing, blocks only its dependents, and is accounted for.
    Statements only; every proof is [exact <lemma>].  Vocabulary: see Props/C02.v and C01.v. *)
 From Coq Require Import List Bool PArith Arith.
+From JugV Require Import Model.LockPrims.
 From JugV Require Import Model.MapReduce Model.Slice Model.Deps Model.Exec Model.ExecCase Model.ExecExample
-  Proofs.ExecFacts Proofs.ExecProgFacts Proofs.ExecTheorems.
+  Proofs.ExecFacts Proofs.ExecProgFacts Proofs.ExecTheorems Proofs.ExecLockFacts.
 Import ListNotations.
 
 (* (a)+(b) after a task function raised: no result is ever stored for that task, nor for any task
@@ -74,3 +75,20 @@ Example C11_nonvacuous :
              map (results s) [1; 2; 3]%positive = [Some ex_v1; None; None] /\ execs s 2%positive = 1 /\
              locks s 2%positive = LFailed /\ w_pc (ws s 0) = PDone 0 /\ w_pc (ws s 1) = PDone 1).
 Proof. split; eexists; vm_compute; repeat split; reflexivity. Qed.
+
+(* the failed marker IS the `fail` of the atomic lock specification that C04 proves of every backend (sticky until
+   released): the lock calls of any run - fail() of a raising task with --keep-failed, the get() calls it makes answer
+   False, `cleanup --failed-only` - replayed on [spec_op] get the observed answers and end in the protocol's lock table *)
+Theorem C11_failed_marker_is_the_atomic_fail : forall (V : Type) (C : cfg V), framed C ->
+  forall r0 tr s, reach C r0 tr s ->
+  let (g, ok) := spec_calls (fun _ => GFree) (lock_calls tr) in
+  ok = true /\ forall t, g t = abs_lock (locks s t).
+Proof. exact (@uses_the_atomic_lock). Qed.
+Print Assumptions C11_failed_marker_is_the_atomic_fail.
+
+Example C11_atomic_fail_nonvacuous :
+  existsb (fun c => match c with LCall 1 OFail 2%positive (OB true) => true | _ => false end) (lock_calls (ex_trace_fail true)) = true /\
+  existsb (fun c => match c with LCall 0 OGet 2%positive (OB false) => true | _ => false end) (lock_calls (ex_trace_fail true)) = true /\
+  snd (spec_calls (fun _ => GFree) (lock_calls (ex_trace_fail true))) = true /\
+  fst (spec_calls (fun _ => GFree) (lock_calls (ex_trace_fail true))) 2%positive = GFailed.
+Proof. vm_compute. repeat split; reflexivity. Qed.
